@@ -119,7 +119,7 @@ func runDangling(run *vc.Run, dir string, n int) {
 		for i := lo; i < hi; i++ {
 			prof := danglingProfiles[i%len(danglingProfiles)]
 			id := fmt.Sprintf("g%05d", i)
-			o := gen.Opts{Profile: prof}
+			o := gen.Opts{Profile: prof, NoStreams: true}
 			base := gen.Generate(run.Rand(2, uint64(i)), id, o)
 			mutant := gen.Generate(run.Rand(2, uint64(i)), id, o) // same stream: an identical, independent copy
 			if prof == "grpc" {
